@@ -143,7 +143,13 @@ func (s *ssTicketStore) serialize() error {
 	if err != nil {
 		return err
 	}
-	return os.WriteFile(s.filePath, jsonStr, 0o600)
+	// Write to a temporary file and rename it into place, so that a crash
+	// never leaves a truncated (unparseable) ticket store behind.
+	tmpPath := s.filePath + ".tmp"
+	if err = os.WriteFile(tmpPath, jsonStr, 0o600); err != nil {
+		return err
+	}
+	return os.Rename(tmpPath, s.filePath)
 }
 
 func loadTicketStore(stateDir string) (*ssTicketStore, error) {
